@@ -5,7 +5,7 @@ import re
 from hypothesis import strategies as st
 
 from vlib import rivals
-from vlib.core import Part, Violation, Discard, call
+from vlib.core import call_twice, Part, Violation, Discard, call
 
 from mitxgraders import (StringGrader, FormulaGrader, SingleListGrader, ListGrader,
                          LinearCredit, GeometricCredit, ReciprocalCredit)
@@ -29,7 +29,8 @@ RULE = ("Schedules: every LinearCredit over decrease_credit_after 1-6 x decrease
         "attempt, |p-100c|<=0.05, no trailing '.0') exactly when c<1, some base grade was positive and the flag is on "
         "(explicitly or by default), otherwise exactly the base message. Attempt omitted -> ConfigError. Non-trivial = "
         "c<1 and (some partial base grade, or a list result with zero and positive entries); for a schedule case: at "
-        "least 3 distinct values over attempts 1..200. Distinct by spec.")
+        "least 3 distinct values over attempts 1..200. Distinct by spec."
+        " Schedule values are compared with the documented progressions and re-asked after other schedules were used (no dependence on history); author schedules include values equal to 1 at four decimals without being 1; the note clause is judged by observed reduction.")
 ASSUMPTIONS = ["attempt is a Python int (or omitted); author-defined schedules return ints or floats in [0,1] and may be "
                "non-monotone", "student inputs are well-formed for the grader, so the grader without attempt-based credit "
                "returns a result (a base grader that raises is discarded, the property is silent there)",
@@ -362,8 +363,7 @@ def abc_kwargs(s, flag):
 
 
 def run(grader, inp, seed, **kw):
-    set_seed(seed)
-    return call(grader, None, inp if isinstance(inp, str) else list(inp), **kw)
+    return call_twice(grader, lambda: set_seed(seed), None, inp if isinstance(inp, str) else list(inp), **kw)
 
 
 # ----------------------------------------------------------------------------------------------------
